@@ -1222,7 +1222,7 @@ func plcCorpusLadder(h *plcHist) {
 	A := g.cids[0]
 	top := 255
 	if Tier() != "thorough" {
-		top = 129 // enough for vec = -127 (needs vector 128); the model's cost is quadratic in the number of vectors: the full ladder is for the thorough tier
+		top = 40 // the model's cost is quadratic in the number of vectors (129 vectors: 6 s, 255: 23 s of coqc): the full ladder is for the thorough tier
 	}
 	for v := 0; v < top; v++ {
 		if !h.Add(true, A, int64(v), g.pubs(v%7)) {
